@@ -88,6 +88,11 @@ def choices_rows(form):
             row.update(r)
             cur.append(row)
         per_list.append(cur)
+    if form.get("choices_blank_at") is not None and per_list:
+        # an empty row inside the choices sheet
+        flat = [r for cur in per_list for r in cur]
+        pos = form["choices_blank_at"] % (len(flat) + 1)
+        return flat[:pos] + [{}] + flat[pos:]
     if form.get("choices_interleave"):
         # the rows of one list need not be contiguous on the sheet: deal them out round robin
         rows = []
